@@ -233,4 +233,189 @@ Lemma x_in_span k u : k <= K -> dot u (x k) = dot u (vadd vo (cx c0) (comb k al)
 Proof. induction k as [|k IH]; intros Hk.
   - cbn [comb]. rewrite dot_add_r, dot_scale_r. change (cx (cs 0)) with (cx c0). ring.
   - rewrite x_S by lia. cbn [comb]. rewrite !dot_add_r, IH, dot_add_r by lia. ring. Qed.
+
+(* ================================================================== the Krylov space *)
+(* span{p_0..p_(k-1)} and K_k(PA, z0) = span{z0, (PA) z0, .., (PA)^(k-1) z0} as weakly closed inductive families *)
+Definition weq (v v' : V) : Prop := forall w, dot w v = dot w v'.
+Fixpoint kpow (i : nat) (v : V) : V := match i with O => v | S i' => P (A (kpow i' v)) end.
+Inductive Sp (gen : nat -> V) (k : nat) : V -> Prop :=
+| Sp_gen : forall j, (j < k)%nat -> Sp gen k (gen j)
+| Sp_zero : forall v, Sp gen k (vscale vo 0 v)
+| Sp_add : forall v w, Sp gen k v -> Sp gen k w -> Sp gen k (vadd vo v w)
+| Sp_sub : forall v w, Sp gen k v -> Sp gen k w -> Sp gen k (vsub vo v w)
+| Sp_scale : forall a v, Sp gen k v -> Sp gen k (vscale vo a v)
+| Sp_weq : forall v v', Sp gen k v -> weq v v' -> Sp gen k v'.
+Definition pgen (j : nat) : V := p j.
+Definition kgen (j : nat) : V := kpow j (cp c0).
+Notation InS := (Sp pgen).       (* span of the search directions *)
+Notation InK := (Sp kgen).       (* the preconditioned Krylov space of z0 = P r0 *)
+
+Lemma Sp_mono gen k k' v : (k <= k')%nat -> Sp gen k v -> Sp gen k' v.
+Proof. intros Hk H. induction H.
+  - apply Sp_gen. lia.
+  - apply Sp_zero.
+  - apply Sp_add; assumption.
+  - apply Sp_sub; assumption.
+  - apply Sp_scale; assumption.
+  - eapply Sp_weq; eassumption. Qed.
+
+(* PA is weakly linear and respects weak equality *)
+Lemma PA_weq v v' : weq v v' -> weq (P (A v)) (P (A v')).
+Proof. intros H w. rewrite !P_sa, !A_sa. apply H. Qed.
+Lemma PA_add v w : weq (P (A (vadd vo v w))) (vadd vo (P (A v)) (P (A w))).
+Proof. intros u. rewrite dot_add_r, !P_sa, !A_sa, dot_add_r. reflexivity. Qed.
+Lemma PA_sub v w : weq (P (A (vsub vo v w))) (vsub vo (P (A v)) (P (A w))).
+Proof. intros u. rewrite dot_sub_r, !P_sa, !A_sa, dot_sub_r. reflexivity. Qed.
+Lemma PA_scale a v : weq (P (A (vscale vo a v))) (vscale vo a (P (A v))).
+Proof. intros u. rewrite dot_scale_r, !P_sa, !A_sa, dot_scale_r. reflexivity. Qed.
+
+(* z_j and PA p_j in terms of the directions *)
+Lemma z_S_weq j : (j < K)%nat -> weq (z (S j)) (vsub vo (p (S j)) (vscale vo (be j) (p j))).
+Proof. intros Hj w. rewrite dot_sub_r, dot_scale_r, p_S_r by assumption. ring. Qed.
+Lemma PAp_weq j : (j < K)%nat -> weq (P (A (p j))) (vscale vo (1 / al j) (vsub vo (z j) (z (S j)))).
+Proof. intros Hj w. rewrite dot_scale_r, dot_sub_r.
+  assert (E : dot w (z (S j)) = dot w (z j) - al j * dot w (P (A (p j)))).
+  { rewrite (P_sa w (r (S j))), r_S_r, <- !P_sa by assumption. rewrite (P_sa w (A (p j))). reflexivity. }
+  rewrite E. field. apply al_nz; assumption. Qed.
+
+Lemma z_InS j : (j <= K)%nat -> InS (S j) (z j).
+Proof. destruct j as [|j]; intros Hj.
+  - change (P (cr (cs 0))) with (P (cr c0)). rewrite <- Hp0. apply (Sp_gen pgen 1 0). lia.
+  - eapply Sp_weq; [|intros w; symmetry; apply (z_S_weq j); lia].
+    apply Sp_sub; [apply (Sp_gen pgen (S (S j)) (S j)); lia|]. apply Sp_scale. apply (Sp_gen pgen (S (S j)) j). lia. Qed.
+
+Lemma PA_InS k v : (k <= K)%nat -> InS k v -> InS (S k) (P (A v)).
+Proof. intros Hk H. induction H.
+  - eapply Sp_weq; [|intros w; symmetry; apply (PAp_weq j); lia]. apply Sp_scale. apply Sp_sub.
+    + apply (Sp_mono pgen (S j)); [lia|]. apply z_InS. lia.
+    + apply (Sp_mono pgen (S (S j))); [lia|]. apply z_InS. lia.
+  - eapply Sp_weq; [apply (Sp_zero pgen (S k) (P (A v)))|]. intros w. symmetry. apply PA_scale.
+  - eapply Sp_weq; [apply Sp_add; [apply IHSp1|apply IHSp2]|]. intros u. symmetry. apply PA_add.
+  - eapply Sp_weq; [apply Sp_sub; [apply IHSp1|apply IHSp2]|]. intros u. symmetry. apply PA_sub.
+  - eapply Sp_weq; [apply Sp_scale; apply IHSp|]. intros u. symmetry. apply PA_scale.
+  - eapply Sp_weq; [apply IHSp|]. apply PA_weq. assumption. Qed.
+
+Lemma kgen_InS i : (i <= K)%nat -> InS (S i) (kgen i).
+Proof. induction i as [|i IH]; intros Hi.
+  - unfold kgen. cbn [kpow]. apply (Sp_gen pgen 1 0). lia.
+  - unfold kgen in *. cbn [kpow]. apply PA_InS; [lia|]. apply IH. lia. Qed.
+
+(* K_k is contained in the span of the first k directions (k <= K+1) *)
+Theorem krylov_in_span k v : (k <= S K)%nat -> InK k v -> InS k v.
+Proof. intros Hk H. induction H.
+  - apply (Sp_mono pgen (S j)); [lia|]. apply kgen_InS. lia.
+  - apply Sp_zero.
+  - apply Sp_add; assumption.
+  - apply Sp_sub; assumption.
+  - apply Sp_scale; assumption.
+  - eapply Sp_weq; eassumption. Qed.
+
+(* conversely every direction lies in the Krylov space *)
+Lemma PA_InK k v : InK k v -> InK (S k) (P (A v)).
+Proof. intros H. induction H.
+  - apply (Sp_gen kgen (S k) (S j)). lia.
+  - eapply Sp_weq; [apply (Sp_zero kgen (S k) (P (A v)))|]. intros w. symmetry. apply PA_scale.
+  - eapply Sp_weq; [apply Sp_add; [apply IHSp1|apply IHSp2]|]. intros u. symmetry. apply PA_add.
+  - eapply Sp_weq; [apply Sp_sub; [apply IHSp1|apply IHSp2]|]. intros u. symmetry. apply PA_sub.
+  - eapply Sp_weq; [apply Sp_scale; apply IHSp|]. intros u. symmetry. apply PA_scale.
+  - eapply Sp_weq; [apply IHSp|]. apply PA_weq. assumption. Qed.
+
+Lemma z_S_weq2 j : (j < K)%nat -> weq (z (S j)) (vsub vo (z j) (vscale vo (al j) (P (A (p j))))).
+Proof. intros Hj w. rewrite dot_sub_r, dot_scale_r.
+  rewrite (P_sa w (r (S j))), r_S_r, <- !P_sa by assumption. rewrite (P_sa w (A (p j))). reflexivity. Qed.
+
+Lemma zp_InK j : (j <= K)%nat -> InK (S j) (z j) /\ InK (S j) (p j).
+Proof. induction j as [|j IH]; intros Hj.
+  - assert (H0 : InK 1 (cp c0)) by (apply (Sp_gen kgen 1 0); lia). split; [|exact H0].
+    change (P (cr (cs 0))) with (P (cr c0)). rewrite <- Hp0. exact H0.
+  - destruct (IH ltac:(lia)) as [Hz Hpj].
+    assert (Hz' : InK (S (S j)) (z (S j))).
+    { eapply Sp_weq; [|intros w; symmetry; apply (z_S_weq2 j); lia].
+      apply Sp_sub; [apply (Sp_mono kgen (S j)); [lia|exact Hz]|]. apply Sp_scale. apply PA_InK. exact Hpj. }
+    split; [exact Hz'|].
+    rewrite p_S by lia. apply Sp_add; [exact Hz'|]. apply Sp_scale. apply (Sp_mono kgen (S j)); [lia|exact Hpj]. Qed.
+
+Theorem span_in_krylov k v : (k <= S K)%nat -> InS k v -> InK k v.
+Proof. intros Hk H. induction H.
+  - apply (Sp_mono kgen (S j)); [lia|]. apply zp_InK. lia.
+  - apply Sp_zero.
+  - apply Sp_add; assumption.
+  - apply Sp_sub; assumption.
+  - apply Sp_scale; assumption.
+  - eapply Sp_weq; eassumption. Qed.
+
+(* members of the span are (weakly) combinations comb k c *)
+Lemma comb_dot_r k c w : dot w (comb k c) = fold_right (fun i acc => acc + c i * dot w (p i)) 0 (rev (seq 0 k)).
+Proof. induction k as [|k IH].
+  - cbn. rewrite dot_scale_r. ring.
+  - rewrite seq_S, rev_app_distr. cbn [comb rev app fold_right]. rewrite dot_add_r, dot_scale_r, IH. reflexivity. Qed.
+Lemma comb_ext k c c' : (forall i, (i < k)%nat -> c i = c' i) -> weq (comb k c) (comb k c').
+Proof. intros H w. induction k as [|k IH]; cbn [comb]; [reflexivity|].
+  rewrite !dot_add_r, !dot_scale_r, IH, H by (intros; try apply H; lia). reflexivity. Qed.
+Lemma comb_add k c c' : weq (comb k (fun i => c i + c' i)) (vadd vo (comb k c) (comb k c')).
+Proof. intros w. induction k as [|k IH]; cbn [comb].
+  - rewrite dot_add_r, !dot_scale_r. ring.
+  - rewrite !dot_add_r, !dot_scale_r, IH, !dot_add_r. ring. Qed.
+Lemma comb_sub k c c' : weq (comb k (fun i => c i - c' i)) (vsub vo (comb k c) (comb k c')).
+Proof. intros w. induction k as [|k IH]; cbn [comb].
+  - rewrite dot_sub_r, !dot_scale_r. ring.
+  - rewrite dot_sub_r, !dot_add_r, !dot_scale_r, IH, dot_sub_r. ring. Qed.
+Lemma comb_scale k a c : weq (comb k (fun i => a * c i)) (vscale vo a (comb k c)).
+Proof. intros w. induction k as [|k IH]; cbn [comb].
+  - rewrite !dot_scale_r. ring.
+  - rewrite dot_scale_r, !dot_add_r, !dot_scale_r, IH, dot_scale_r. ring. Qed.
+Lemma comb_single k j : (j < k)%nat -> weq (comb k (fun i => if Nat.eqb i j then 1 else 0)) (p j).
+Proof. intros Hj w. induction k as [|k IH]; [lia|]. cbn [comb]. rewrite dot_add_r, dot_scale_r.
+  destruct (Nat.eq_dec j k) as [->|Hne].
+  - rewrite Nat.eqb_refl. rewrite (comb_ext k _ (fun _ => 0)).
+    + clear IH. assert (Z : forall n, dot w (comb n (fun _ => 0)) = 0).
+      { induction n as [|n IHn]; cbn [comb]; [rewrite dot_scale_r; ring|rewrite dot_add_r, dot_scale_r, IHn; ring]. }
+      rewrite Z. ring.
+    + intros i Hi. destruct (Nat.eqb_spec i k); [lia|reflexivity].
+  - rewrite IH by lia. destruct (Nat.eqb_spec k j); [lia|ring]. Qed.
+
+Lemma InS_comb k v : InS k v -> exists c, weq v (comb k c).
+Proof. intros H. induction H.
+  - exists (fun i => if Nat.eqb i j then 1 else 0). intros w. symmetry. apply comb_single. assumption.
+  - exists (fun _ => 0). intros w. rewrite dot_scale_r.
+    assert (Z : forall n, dot w (comb n (fun _ => 0)) = 0).
+    { induction n as [|n IHn]; cbn [comb]; [rewrite dot_scale_r; ring|rewrite dot_add_r, dot_scale_r, IHn; ring]. }
+    rewrite Z. ring.
+  - destruct IHSp1 as [c1 H1], IHSp2 as [c2 H2]. exists (fun i => c1 i + c2 i). intros u.
+    rewrite comb_add, !dot_add_r, H1, H2. reflexivity.
+  - destruct IHSp1 as [c1 H1], IHSp2 as [c2 H2]. exists (fun i => c1 i - c2 i). intros u.
+    rewrite comb_sub, !dot_sub_r, H1, H2. reflexivity.
+  - destruct IHSp as [c1 H1]. exists (fun i => a * c1 i). intros u. rewrite comb_scale, !dot_scale_r, H1. reflexivity.
+  - destruct IHSp as [c1 H1]. exists c1. intros u. rewrite <- H0. apply H1. Qed.
+
+Lemma comb_InS k c : InS k (comb k c).
+Proof. induction k as [|k IH]; cbn [comb]; [apply Sp_zero|]. apply Sp_add.
+  - apply (Sp_mono pgen k); [lia|]. exact IH.
+  - apply Sp_scale. apply (Sp_gen pgen (S k) k). lia. Qed.
+
+(* the error functional only depends on its argument through inner products *)
+Lemma phi_weq y y' : weq y y' -> phi y = phi y'.
+Proof. intros H. unfold phi, err.
+  assert (E1 : dot xs (A y) = dot xs (A y')) by (rewrite !A_sa; apply H).
+  assert (E2 : dot y (A xs) = dot y' (A xs)) by (rewrite (dot_sym y), (dot_sym y'); f_equal; apply H).
+  assert (E3 : dot y (A y) = dot y' (A y')).
+  { rewrite (A_sa y y), (H (A y)), (dot_sym (A y) y'), (A_sa y' y), (H (A y')), <- dot_sym. reflexivity. }
+  rewrite !dot_sub_l, !A_sub_r, E1, E2, E3. reflexivity. Qed.
+
+(* Optimality over the Krylov space: x_k lies in x0 + K_k(PA, P r0) and no element of that affine space has a
+   smaller A-norm of the error. *)
+Theorem cg_optimal_krylov (Pos : T -> Prop) : (forall v, Pos (dot v (A v))) ->
+  forall k, (k <= K)%nat ->
+  (exists v, InK k v /\ weq (x k) (vadd vo (cx c0) v)) /\
+  forall v, InK k v -> Pos (phi (vadd vo (cx c0) v) - phi (x k)).
+Proof.
+  intros HA k Hk. split.
+  - exists (comb k al). split.
+    + apply span_in_krylov; [lia|]. apply comb_InS.
+    + intros w. apply x_in_span. assumption.
+  - intros v Hv. apply krylov_in_span in Hv; [|lia]. destruct (InS_comb k v Hv) as [c Hc].
+    assert (E : weq (vadd vo (cx c0) v) (vadd vo (x k) (comb k (fun i => c i - al i)))).
+    { intros w. rewrite !dot_add_r, Hc, comb_sub, dot_sub_r, (x_in_span k w Hk), dot_add_r. ring. }
+    rewrite (phi_weq _ _ E). apply cg_optimal; assumption.
+Qed.
 End Krylov.
